@@ -81,7 +81,9 @@ func c12GuardPlan(kind string, g *c12Gen, forms []bool) []c12GuardCall {
 			}
 		} else {
 			for try := 0; try < 30 && a == nil; try++ {
-				a = e.gen(g)
+				if a = e.gen(g); a != nil && c12IdlePipe(a) {
+					a = nil
+				}
 			}
 		}
 		if a == nil {
